@@ -569,6 +569,16 @@ def readonly_facts():
     sy = src("interpreter/system.rs")
     ld = fn_body(sy, "load")
     f["systemReadonlyFromRuntime"] = bool(re.search(r"let\s+read_only\s*=\s*rt\.read_only\(\);", ld) and re.search(r"readonly:\s*read_only,", ld))
+    # `readonly` is decided once, at construction: no later assignment anywhere in the actor
+    for root, _, files in os.walk(os.path.join(REPO, EVM)):
+        for fn in files:
+            if fn.endswith(".rs"):
+                txt = re.sub(r"//[^\n]*", "", open(os.path.join(root, fn)).read())
+                txt = txt.split("#[cfg(test)]")[0]      # unit-test modules sit at the end of the files
+                if fn == "test_util.rs":
+                    continue
+                if re.search(r"\.readonly\s*=[^=]", txt):
+                    f["systemReadonlyFromRuntime"] = False
     need(r"if\s+crate::is_dead\(rt,\s*&state\)\s*\{\s*return\s+Ok\(Self::new\(rt,\s*true\)\);\s*\}", ld, "dead contract loads read-only")
     for fn in ("create", "resurrect"):
         need(r"let\s+read_only\s*=\s*rt\.read_only\(\);.*Ok\(Self::new\(rt,\s*read_only\)\)", fn_body(sy, fn), "System::" + fn)
